@@ -7,12 +7,12 @@ from .common import absorb, blank, brief_scn, run_scn, termination
 ID = 'C14'
 LEVEL = 'exploration'
 TIERS = {'quick': 5000, 'thorough': 300000}
-RULE = ('2-3 baton-scheduled threads (or asyncio tasks) each opening 2-4 streams on one device, with opcode-level pre-emption inside AdbDevice._open '
+RULE = ('2-3 baton-scheduled threads (or asyncio tasks) each opening 2-4 streams on one device (some OPENs refused by the device so that opens fail while others are in flight), with opcode-level pre-emption inside AdbDevice._open '
         'and line-level pre-emption elsewhere (dense and PCT policies), the id counter preset to values near 0 and 2^32 (..., 2^32-2, 2^32-1); plus '
         'sequential wrap-around sessions. Oracle on the device side: every OPEN arg0 in [1, 2^32-1] and never the id of a stream that is live at that '
         'moment. non-trivial = a context switch happened inside _open (threads) or the counter wrapped / two streams were live at once (tasks, sequential)')
 ASSUMPTIONS = ['a stream is live from its OPEN until either side has sent CLSE', 'results of the operations are not judged here (K1 may time them out); only OPEN ids']
-EXPECT_PROBES = {'all': ['preempt_in__open', 'preempt_opcode', 'c14_wrapped', 'c14_two_live']}
+EXPECT_PROBES = {'all': ['preempt_in__open', 'preempt_opcode', 'c14_wrapped', 'c14_two_live', 'open_refused']}
 OWN = ('id-zero', 'id-reused', 'id-range', 'hang', 'no-termination', 'deadlock')
 
 
@@ -28,8 +28,8 @@ def generate(seed, tier):
     for a in range(nact):
         ops = []
         for _ in range(g.int(2, 4)):
-            k = g.pick(['shell', 'stat', 'reboot', 'streaming_shell'], [5, 2, 1, 1])
-            if k == 'shell' or k == 'streaming_shell':
+            k = g.pick(['shell', 'stat', 'reboot', 'streaming_shell', 'exec_out'], [5, 2, 1, 1, 2])
+            if k in ('shell', 'streaming_shell', 'exec_out'):
                 name = S.add_cmd(g, d, 40)
                 ops.append({'op': k, 'cmd': name, 'decode': False, 'rt': 3.0, 'tt': 3.0})
             elif k == 'stat':
@@ -37,6 +37,8 @@ def generate(seed, tier):
             else:
                 ops.append({'op': 'reboot', 'rt': 3.0, 'tt': 3.0})
         actors.append(ops)
+    if g.chance(0.5):
+        d['refuse'] = ['exec:']       # OPENs of exec: are answered with CLSE(0, id): those opens fail with a timeout
     cfg = {'frag': 'whole', 'call_cost': 1e-5}
     if mode == 'threads':
         cfg['sched'] = g.pick(['dense', 'dense', 'pct'])
